@@ -60,9 +60,23 @@ func (s *scriptedServer) DialClient(ctx context.Context, l *protocol.Link) (net.
 		err = context.DeadlineExceeded
 	case "other":
 		err = errors.New("scripted: connection refused")
-	case "silent", "ok", "bad-status", "status-nodirect", "status-error":
+	case "eof":
+		// the stream to the node that holds the client ended while the link was being set up
+		err = io.EOF
+	case "canceled":
+		err = context.Canceled
+	case "silent", "ok", "bad-status", "status-nodirect", "status-error", "closed-early":
 		a, b := net.Pipe()
 		s.peer = b
+		if s.outcome == "closed-early" {
+			// the client takes the link and goes away (it is shutting down) without a status or a response
+			go func() {
+				buf := make([]byte, 4096)
+				b.SetReadDeadline(time.Now().Add(time.Second))
+				b.Read(buf)
+				b.Close()
+			}()
+		}
 		if s.outcome == "silent" {
 			// the far end takes the bytes (a real connection buffers them) but never answers
 			go io.Copy(io.Discard, b)
@@ -82,7 +96,7 @@ type plan struct {
 	Host    string `json:"host"`
 }
 
-var outcomes = []string{"not-found", "not-connected", "no-direct", "timeout", "deadline", "other", "silent", "ok", "bad-status", "status-nodirect", "status-error"}
+var outcomes = []string{"not-found", "not-connected", "no-direct", "timeout", "deadline", "other", "silent", "ok", "bad-status", "status-nodirect", "status-error", "eof", "canceled", "closed-early"}
 
 func Run(t *testing.T, prop string, seed uint64, tier string, replay *hcommon.Replay) hcommon.RunResult {
 	n := seed
@@ -142,6 +156,11 @@ func runHTTP(res *hcommon.RunResult, g *gateway.Gateway, srv *scriptedServer, p 
 	if p.Outcome == "ok" || p.Outcome == "bad-status" || p.Outcome == "status-nodirect" || p.Outcome == "status-error" {
 		return // success and status frames belong to the stream paths
 	}
+	if p.Outcome == "eof" || p.Outcome == "canceled" {
+		// as dial errors these two cannot come out of tun/server.DialClient on the HTTP path, and the handler treats
+		// them as "the requester went away"; the forwarding failure that does produce an end-of-stream is closed-early
+		return
+	}
 	h := g.VerifProxyHandler()
 	req := httptest.NewRequest("GET", "https://"+p.Host+"/x", nil)
 	req.Host = p.Host
@@ -166,8 +185,8 @@ func runHTTP(res *hcommon.RunResult, g *gateway.Gateway, srv *scriptedServer, p 
 type dconn struct{ net.Conn }
 
 func runTCP(res *hcommon.RunResult, g *gateway.Gateway, srv *scriptedServer, p *plan) {
-	if p.Outcome == "silent" || p.Outcome == "bad-status" || p.Outcome == "status-nodirect" || p.Outcome == "status-error" {
-		return
+	if p.Outcome == "silent" || p.Outcome == "bad-status" || p.Outcome == "status-nodirect" || p.Outcome == "status-error" || p.Outcome == "closed-early" {
+		return // after a successful dial the raw TCP path is a plain pipe: the status is the client's own
 	}
 	caller, gwSide := net.Pipe()
 	done := make(chan error, 1)
